@@ -76,7 +76,11 @@ def run(ctx, model_ok):
                             "selfint_eps_is_relative); r_factor = 2 reaches every facet pair with a common point, no crossing found by the primitive is lost to the ball query "
                             "(selfint_radius_covers, selfint_reports_crossing_pair).  NOT shown: that two intersecting facets always have an edge of one meeting the other off its end points — false when end points lie "
                             "within eps x size of the other facet's plane (segfacet_misses_end_in_facet; octahedron with its equator in a box face: known finding).  float32 rounding is modelled "
-                            "bit for bit but no theorem is about it: needle facets of aspect >~ 1e3 in general position can still be flagged (plane-distance noise of coplanar neighbours above eps)",
+                            "bit for bit but no theorem is about it: needle facets of aspect >~ 1e3 in general position can still be flagged (plane-distance noise of coplanar neighbours above eps).  "
+                            "(audit2) What the class verdict IS in exact arithmetic: selfint_verdict_iff / selfint_report_iff — True exactly when some edge of a facet has a point in common with "
+                            "another closed facet with both end points farther than 1e-6 x size from that facet's plane; this is NOT 'self-intersecting exactly when it is' (misses: end points in the "
+                            "other facet's plane, coplanar overlaps; and 'farther than eps' uses the code's own plane distance, 0 for a zero-area facet).  That a valid mesh (facets meeting only in common "
+                            "corners / edges) is never flagged follows informally from it but is not stated as a theorem (no definition of a valid mesh in the model)",
                             "check_open: 'open' is the code's own edge count (open_iff_edge_count_ne_2 unfolds the model); its reading as 'number of faces containing both end points' holds for "
                             "faces with three distinct indices only (edge_count_eq_faces_containing); a face (a, a, b) counts its edge twice",
                             "orientation: propagation_consistent assumes that some consistent choice of flips exists; that every closed non-self-intersecting embedded mesh has one is not proved; "
@@ -87,7 +91,12 @@ def run(ctx, model_ok):
                             "inwards); it lies on the positive side of the facet normal AS GIVEN (changes sides with the winding); a check point outside the bounding box gives 'outwards' "
                             "(seed_verdict_outside_box_outwards); for a mesh that is ONE tetrahedron with any windings (seed_verdict_geometric_tetra_partial) a check point strictly inside with a "
                             "generic ray gives 'inwards', a check point beyond the plane of the first face only, generic ray, no OTHER face touched gives 'outwards' (even crossing count: "
-                            "crossCount_tetra_beyond_first) — on such a tetrahedron the seed verdict is geometric.  NOT shown: anything for meshes other than one tetrahedron (convex bodies: the parity "
+                            "crossCount_tetra_beyond_first) — on such a tetrahedron the seed verdict is geometric.  (audit2) These seed theorems were NOT connected to the hypothesis hgeo of "
+                            "reorient_invariant_under_input_flips / reorient_idempotent (the examples instantiated the _index versions with constant stub seeds only); the connection now exists for ONE "
+                            "LITERAL tetrahedron: reorient_tetra345_all_flips / reorient_tetra345_idempotent (vertices (0,0,0),(3,0,0),(0,4,0),(0,0,1), real carrier, the modelled is_facet_inwards as seed, "
+                            "every subset of flipped input faces: the outward listing comes back, a second run changes nothing) — the only mesh for which 'after reorientation all faces point outwards' "
+                            "is a theorem without a seed hypothesis; for every other mesh hgeo is an ASSUMPTION (oracle / meshperm stream only), and 'Consistent faces rho' (orientability) plus "
+                            "'EdgeConnected faces' (from face 0) are hypotheses too, not derived from 'closed and not self-intersecting'.  NOT shown: anything for meshes other than one tetrahedron (convex bodies: the parity "
                             "argument for a closed triangulated surface is missing); the hypotheses 'no other face touched' (false for dihedral angles below ~1e-5) and 'generic ray' are not "
                             "derived from the geometry; hence 'after reorientation all faces point outwards' is not shown; meshes of several edge-components (bodies apart or "
                             "touching in a vertex) get one seed test per component: winding invariance for them is compared by the meshperm stream only; invariance of the sweep under ROTATING the "
@@ -95,11 +104,18 @@ def run(ctx, model_ok):
                             "inside test: theorem only for a mesh that is ONE tetrahedron, observers strictly inside, generic ray (tetra_interior_found_by_ray_test_partial); nothing for observers "
                             "outside nor for any other closed mesh (boxes, prisms, hulls, unions: oracle only)",
                             "all real-arithmetic theorems (maskInsideTrimesh, isFacetInwards, segFacet, getIntersectingTriangles) evaluate zero-area facets through x/0 = 0 where the float code "
-                            "produces NaN; the getIntersectingTriangles theorems are about rounding = id, which neither the driver (float32 only) nor the real function (always astype(float32)) executes",
-                            "field vs face order / winding / vertex numbering: proved — face order for the whole BHJM_magnet_trimesh incl. the inside test (trimesh_field_face_perm), vertex numbering "
+                            "produces NaN; the getIntersectingTriangles theorems are about rounding = id, which neither the driver (float32 only) nor the real function (always astype(float32)) executes "
+                            "(the primitive segFacet at rounding = id IS executed: the float64 rows of the selfint stream); (audit2) one exception: the face-order statement holds for EVERY rounding "
+                            "function on the reals (selfint_face_order_invariant_any_rounding, selfint_verdict_face_order_invariant_any_rounding — float32 round-to-nearest idealised, no overflow / NaN); "
+                            "translation / scale invariance, selfint_radius_covers, selfint_reports_crossing_pair, selfint_eps_is_relative, selfint_report_iff / selfint_verdict_iff remain at rounding = id only",
+                            "field vs face order / winding / vertex numbering: proved OVER THE REALS ONLY (audit2: trimesh_field_face_perm, triangle_field_cyclic, trimesh_sheets_rotation use commutativity / "
+                            "associativity of +; the float sum over the faces and over the three edge terms is order dependent and NOT represented — on the real class a face permutation of the convex hull of 14 random points "
+                            "changes getB in the last bits, 17 of 20 observers, max 1.4e-17; the meshperm stream compares to 1e-7 of the polarization scale; vertex_renumbering alone is bit-exact at any carrier "
+                            "because vertices[faces] is the identical array) — face order for the whole BHJM_magnet_trimesh incl. the inside test (trimesh_field_face_perm), vertex numbering "
                             "for the whole chain at any carrier (vertex_renumbering: identical (n,3,3) array), input flips via reorientation (previous item), the Triangle kernel under rotation "
                             "(triangle_field_cyclic) and exchange of two vertices (triangle_field_flip).  NOT shown: triangle_field_flip for an observer within the on_edge tolerance of an edge — "
-                            "false of the code (the substitute value log(-a/c)/l changes sign with the edge direction: triangle_edge_on_edge_changes_sign); the inside test under a rotation of a "
+                            "false of the code (the substitute value log(-a/c)/l changes sign with the edge direction: triangle_edge_on_edge_changes_sign — a statement about ONE edge integral; no theorem "
+                            "exhibits a triangle and observer with triangleB(v0,v2,v1) != -triangleB(v0,v1,v2)); the inside test under a rotation of a "
                             "face's vertices: its crossing count is winding-free (crossing_count_winding_invariant) but the touch test |proj| < 1e-7 is measured from the face's LAST vertex, so an observer "
                             "within ~1e-7 (relative) of a face plane changes sides with the vertex order of that face (theorem touch_verdict_depends_on_reference_vertex: unit tetrahedron, observer "
                             "(0.9, 0.05, 0.05) + 3e-8 (1,1,1), face x+y+z=1 listed [2,3,1]: outside, [3,1,2]: inside; reproduced on the real class); outside that layer: meshperm stream"]
